@@ -159,28 +159,29 @@ type histRunner struct {
 	ts     uint32
 	inGrp  []bool
 
-	lastResolved      Op
-	wroteNow          bool // the current op stored a new record for its key (colliding keys: refreshes stale bookkeeping)
-	fresh             bool // C17: new records carry a timestamp one hour in the past instead of 1970
-	clientWritesInGC  int
-	preGC             []*mkey
-	curOp             int
-	wroteUnserved     map[int]bool
-	readsAny          map[string]int
-	listedAfter       int
-	prevVals          map[int][]prevVal // colliding keys: every value ever acknowledged (for the C13-merge-stale exclusion)
-	staleOK           map[int]string    // key -> id of the known finding that tolerates an older own value
-	excluded          map[string]int
-	collideWrites     int
-	reads             map[string]int // residence -> count of checked reads of keys with >=1 overwrite/delete
-	gcPasses          int
-	gcReleased        int64
-	gcKept            int64
-	reopens           int
-	lostByGCOnly      map[int]bool // colliding keys covered by C13-tombstone-sibling only once a GC pass has run
-	registeredOnWrite map[int]bool // colliding keys last written while the collision table already knew their hash group
-	crashes           int
-	deletedFiles      int
+	lastResolved         Op
+	wroteNow             bool // the current op stored a new record for its key (colliding keys: refreshes stale bookkeeping)
+	fresh                bool // C17: new records carry a timestamp one hour in the past instead of 1970
+	clientWritesInGC     int
+	preGC                []*mkey
+	curOp                int
+	wroteUnserved        map[int]bool
+	readsAny             map[string]int
+	listedAfter          int
+	prevVals             map[int][]prevVal // colliding keys: every value ever acknowledged (for the C13-merge-stale exclusion)
+	staleOK              map[int]string    // key -> id of the known finding that tolerates an older own value
+	excluded             map[string]int
+	collideWrites        int
+	reads                map[string]int // residence -> count of checked reads of keys with >=1 overwrite/delete
+	gcPasses             int
+	gcReleased           int64
+	gcKept               int64
+	reopens              int
+	lostByGCOnly         map[int]bool // colliding keys covered by C13-tombstone-sibling only once a GC pass has run
+	passesWithGroupWrite map[int]int  // C05 collision unit: merge passes during which a client wrote a key of the group
+	registeredOnWrite    map[int]bool // colliding keys last written while the collision table already knew their hash group
+	crashes              int
+	deletedFiles         int
 }
 
 func (r *histRunner) label(l string) { r.labels[l] = true }
@@ -195,7 +196,7 @@ func (r *histRunner) stamp() uint32 {
 }
 
 func newRunner(h *History, opts runOpts) *histRunner {
-	r := &histRunner{h: h, opts: opts, labels: map[string]bool{}, reads: map[string]int{}, ts: 1000, excluded: map[string]int{}, prevVals: map[int][]prevVal{}, staleOK: map[int]string{}, readsAny: map[string]int{}, wroteUnserved: map[int]bool{}, lostByGCOnly: map[int]bool{}, registeredOnWrite: map[int]bool{}}
+	r := &histRunner{h: h, opts: opts, labels: map[string]bool{}, reads: map[string]int{}, ts: 1000, excluded: map[string]int{}, prevVals: map[int][]prevVal{}, staleOK: map[int]string{}, readsAny: map[string]int{}, wroteUnserved: map[int]bool{}, lostByGCOnly: map[int]bool{}, registeredOnWrite: map[int]bool{}, passesWithGroupWrite: map[int]int{}}
 	r.model = make([]*mkey, len(h.Cfg.Keys))
 	for i := range r.model {
 		r.model[i] = &mkey{}
@@ -282,6 +283,12 @@ func (r *histRunner) checkGet(k int, where string) error {
 		if p != nil {
 			return fmt.Errorf("%s: Get(%q) hit in an unserved bucket", where, key)
 		}
+		return nil
+	}
+	if (r.staleOK[k] == "C05-sibling-hint-dumped-during-pass" || r.staleOK[k] == "C05-guess-after-sibling-first-write") && (p == nil || p.Ver < 0) && m.State == stLive && err == nil {
+		// the records of a live colliding key were discarded by a merge pass that could not see its new sibling
+		r.excluded[r.staleOK[k]]++
+		freePayload(p)
 		return nil
 	}
 	if r.staleOK[k] == "C13-gc-nomerge" && (p == nil || p.Ver < 0) && m.State == stLive {
